@@ -266,7 +266,63 @@ def replay(data):
         except TypeError as e:
             return True, f"sorted/min/max raise {e}"
         return bad, f"sorted({ns}) = {sorted(ns)}"
-    return False, "skeleton obligations are replayed by re-running the check (their inputs are concrete apart from p, m, keysound digits)"
+    if data["func"] == "ob_measure":
+        rows, cols, variant = a
+        p_, m_, ks = int(g("p")), int(g("m")), int(g("ks"))
+        chars = ["1", "2", "3", "4", "M", "L", "F", "K", "A"]
+        cells = {}
+        for r in range(rows):
+            for c in range(cols):
+                if (r * 7 + c * 3 + variant) % 5 == 0 or (r == rows - 1 and c == cols - 1):
+                    cells[(r, c)] = chars[(r + c + variant) % len(chars)]
+        ksr, ksc = sorted(cells)[variant % len(cells)]
+        lines = []
+        for r in range(rows):
+            line = ""
+            for c in range(cols):
+                line += cells.get((r, c), "0")
+                if (r, c) == (ksr, ksc):
+                    line += "[%d]" % ks
+            pad = ["", "  ", "\t"][(r + variant) % 3]
+            lines.append(pad + line + pad)
+        text = ("\r\n" if variant % 2 else "\n").join(lines)
+        nd = NoteData.__new__(NoteData); nd._notedata = text; nd._columns = cols
+        out = list(nd._iter_measure(p_, m_, text))
+        exp = [Note(beat=Beat(4 * m_ * rows + 4 * r, rows), column=c, note_type=NoteType(cells[(r, c)]), player=p_, keysound_index=ks if (r, c) == (ksr, ksc) else None)
+               for (r, c) in sorted(cells)]
+        return out != exp, f"_iter_measure({p_}, {m_}, {text!r}) = {out}; expected {exp}"
+    if data["func"] == "ob_text":
+        layout, cols = a
+        name, players, eol, deco = LAYOUTS[layout]
+        ks = int(g("ks"))
+        exp, sections, first = [], [], True
+        chars = ["1", "2", "3", "4", "M", "L", "F"]
+        for p_, measures in enumerate(players):
+            ms = []
+            for m_, rows in enumerate(measures):
+                lines = []
+                for r in range(rows):
+                    line = ""
+                    for c in range(cols):
+                        nz = (r * 5 + c * 3 + m_ + p_) % 7 == 0
+                        ch = chars[(r + c + m_) % len(chars)] if nz else "0"
+                        line += ch
+                        if nz:
+                            k = None
+                            if first:
+                                line += "[%d]" % ks; k = ks; first = False
+                            exp.append(Note(beat=Beat(Fraction(4 * m_) + Fraction(4 * r, rows)), column=c, note_type=NoteType(ch), player=p_, keysound_index=k))
+                    lines.append(("  " if deco == 1 and r % 2 else "") + line + (" " if deco == 2 else ""))
+                ms.append(eol.join(lines))
+            sep = eol + "," + (eol if deco != 1 else eol + eol)
+            sections.append(("" if deco == 0 else eol) + sep.join(ms) + eol)
+        text = ("&" + eol).join(sections)
+        nd = NoteData(text)
+        out = list(nd)
+        bad = out != exp or nd.columns != cols or str(nd) != text or any(not (x < y) for x, y in zip(out, out[1:]))
+        first_bad = next(((x, y) for x, y in zip(out, exp) if x != y), None)
+        return bad, f"decoding layout {name} with {cols} columns and keysound {ks}: first differing note (got, expected) = {first_bad}; counts {len(out)}/{len(exp)}"
+    return False, "unknown obligation"
 
 
 def main(tier):
